@@ -206,45 +206,102 @@ def pooled_thread_confined(facts):
 
 
 # ---- ConcurrentSubjectRouter -----------------------------------------------------------------------------------------------
+CSR = 'tulz::ConcurrentSubjectRouter'
+KNOWN_RW = ('tulz::rwp::Resource', 'std::shared_mutex', 'std::shared_timed_mutex')
+
+
+def _bare(t):
+    return (t or '').replace('const ', '').replace('*const', '').replace('&', '').replace('*', '').strip()
+
+
+def lock_adapter(facts, cls_full):
+    """a class that exposes a reader-writer lock through lock()/unlock()/lock_shared()/unlock_shared(): True if each forwards to the
+    matching operation of one inner lock field, False if one forwards to the wrong operation, None if the class is something else"""
+    c = facts.cls(cls_full)
+    if c is None: return None
+    inner = [f for f in c['fields'] if _bare(f['ctype']) in KNOWN_RW]
+    if len(inner) != 1: return None
+    want = {'lock': ('lockWrite', 'lock'), 'unlock': ('unlockWrite', 'unlock'), 'lock_shared': ('lockRead', 'lock_shared'), 'unlock_shared': ('unlockRead', 'unlock_shared')}
+    seen = 0
+    for name, targets in want.items():
+        fs = [f for f in facts.fns if f.d.get('classfull') == cls_full and f.qname.split('::')[-1] == name]
+        if not fs: continue
+        calls = [n for n in fs[0].nodes() if n.k == 'call' and n.n('object') is not None and n.n('object').is_field(inner[0]['name'])]
+        if len(calls) != 1: return None
+        if calls[0].callee_base() not in targets: return False
+        seen += 1
+    return True if seen >= 2 else None
+
+
+def rw_lock_type(facts, t):
+    t = _bare(t)
+    return t in KNOWN_RW or t == 'std::mutex' or lock_adapter(facts, t) is True
+
+
+def router_lock_field(facts):
+    c = facts.cls(CSR)
+    if c is None: return None
+    cands = [f for f in c['fields'] if rw_lock_type(facts, f['ctype'])]
+    return cands[0] if len(cands) == 1 else None
+
+
 def invoker_resource_flow(facts):
-    subs = facts.fns_g('tulz::ConcurrentSubjectRouter::subscribe')
+    """(True / False / None, explanation, site): the lock the concurrent handle takes in unsubscribe() is the router's own lock.
+    subscribe() must build its result through ConcurrentSubjectRouter::Subscription, handing it the router's lock field (by reference or
+    address); Subscription hands it to the ConcurrentInvoker, whose constructor binds its own lock member to it."""
+    lf = router_lock_field(facts)
+    if lf is None: return None, 'the lock field of ConcurrentSubjectRouter was not identified', ''
+    subs = facts.fns_g(f'{CSR}::subscribe')
     if not subs: return False, 'no instantiation of ConcurrentSubjectRouter::subscribe', ''
     site = subs[0].shortloc()
+
+    def nested(f):
+        try: end = int((f.d.get('endloc') or '').split(':')[1])
+        except Exception: end = f.line
+        return [f] + [g for g in facts.fns if g is not f and g.d.get('lambda') and g.file == f.file and f.line <= g.line <= end]
+
+    def designates(e, pred):
+        while e is not None and (e.k == 'cast' or (e.k == 'unop' and e.op in ('&', '*')) or (e.k == 'call' and (e.calleeq or '') in ('std::ref', 'std::addressof', 'std::move', 'std::forward') and e.ns('args'))):
+            e = e.n('sub') if e.k != 'call' else e.ns('args')[0]
+        return e is not None and pred(e)
     for f in subs:
-        rets = [n for n in f.nodes() if n.k == 'return']
-        if not rets: return False, f'{f.name}: no return', site
-        for r in rets:
-            c = None
-            for x in r.walk():
-                if x.k == 'construct' and (x.d.get('class') == 'tulz::ConcurrentSubjectRouter::Subscription') and not x.copy and not x.move:
-                    c = x; break
-            if c is None:
-                return False, f'{f.name} does not build its result through ConcurrentSubjectRouter::Subscription (the handle would unsubscribe without the write lock)', r.shortloc()
-            a0 = c.ns('args')[0] if c.ns('args') else None
-            if not (a0 is not None and a0.is_field('m_resource', 'tulz::ConcurrentSubjectRouter') and a0.n('base') is not None and a0.n('base').k == 'this'):
-                return False, f'{f.name}: the handle is not given this->m_resource', c.shortloc()
-    ctors = [f for f in facts.fns if f.gname == 'tulz::ConcurrentSubjectRouter::Subscription::Subscription' and f.d.get('ctor')]
-    if not ctors: return False, 'ConcurrentSubjectRouter::Subscription constructor not instantiated', site
+        cons = [x for g in nested(f) for x in g.nodes() if x.k == 'construct' and x.d.get('class') == f'{CSR}::Subscription' and not x.copy and not x.move]
+        if not cons:
+            plain = [x for g in nested(f) for x in g.nodes() if x.k == 'return']
+            return False, f'{f.name} does not build its result through ConcurrentSubjectRouter::Subscription (the handle would unsubscribe without the write lock)', (plain[0].shortloc() if plain else site)
+        for c in cons:
+            args = [a for a in c.ns('args') if a is not None]
+            hit = [a for a in args if designates(a, lambda e: e.is_field(lf['name'], CSR))]
+            if not hit:
+                other = [a for a in args if rw_lock_type(facts, a.type or '')]
+                if other: return False, f'{f.name}: the handle is given `{other[0].text()[:30]}`, not the router\'s own {lf["name"]}', c.shortloc()
+                return None, f'{f.name}: which lock the handle receives was not followed', c.shortloc()
+    ctors = [f for f in facts.fns if f.gname == f'{CSR}::Subscription::Subscription' and f.d.get('ctor') and not f.d.get('copy') and not f.d.get('move')]
+    if not ctors: return None, 'ConcurrentSubjectRouter::Subscription constructor not instantiated', site
     for f in ctors:
-        mk = [n for n in f.nodes() if n.is_call('std::make_unique')]
-        if len(mk) != 1 or 'ConcurrentInvoker' not in (mk[0].targs or [''])[0]:
-            return False, f'{f.name}: does not create a ConcurrentInvoker', f.shortloc()
-        a0 = mk[0].ns('args')[0] if mk[0].ns('args') else None
-        if not (a0 is not None and a0.k == 'ref' and a0.decl == f.d['params'][0]['decl']):
-            return False, f'{f.name}: ConcurrentInvoker is not given the resource parameter', mk[0].shortloc()
-    ictors = [f for f in facts.fns if f.gname == 'tulz::ConcurrentSubjectRouter::Subscription::ConcurrentInvoker::ConcurrentInvoker' and f.d.get('ctor')]
-    if not ictors: return False, 'ConcurrentInvoker constructor not instantiated', site
+        p0 = f.d['params'][0]['decl'] if f.d['params'] else None
+        mk = [n for n in f.nodes() if (n.is_call('std::make_unique') or n.is_call('std::make_shared') or n.k == 'new')]
+        inv = [n for n in mk if 'ConcurrentInvoker' in ((n.targs or [''])[0] if n.k == 'call' else (n.alloctype or ''))]
+        if not inv: return None, f'{f.name}: where the ConcurrentInvoker is created was not recognised', f.shortloc()
+        args = inv[0].ns('args') if inv[0].k == 'call' else ((inv[0].n('init').ns('args') if inv[0].n('init') is not None else []))
+        if not any(designates(a, lambda e: e.k == 'ref' and e.decl == p0) for a in args if a is not None):
+            return None, f'{f.name}: the lock parameter is not visibly handed to the ConcurrentInvoker', inv[0].shortloc()
+    ictors = [f for f in facts.fns if f.gname == f'{CSR}::Subscription::ConcurrentInvoker::ConcurrentInvoker' and f.d.get('ctor') and not f.d.get('copy') and not f.d.get('move')]
+    if not ictors: return None, 'ConcurrentInvoker constructor not instantiated', site
     for f in ictors:
+        p0 = f.d['params'][0]['decl'] if f.d['params'] else None
+        c = facts.cls(f.d['classfull'])
+        lockf = [x for x in (c or {}).get('fields', []) if rw_lock_type(facts, x['ctype'])]
+        if len(lockf) != 1: return None, f'{f.d["classfull"]}: lock member not identified', f.shortloc()
+        if not (lockf[0].get('isref') or lockf[0].get('isptr') or lockf[0]['ctype'].rstrip().endswith(('*', '&', '*const'))):
+            return False, f'{f.d["classfull"]}::{lockf[0]["name"]} is a lock of its own (held by value), not the router\'s', f.shortloc()
         ok = False
         for i in f.d.get('inits') or []:
-            if i.get('field') == 'm_resource' and i.get('init'):
+            if i.get('field') == lockf[0]['name'] and i.get('init'):
                 n = Node(f.tu, i['init'])
-                if n.k == 'ref' and n.decl == f.d['params'][0]['decl']: ok = True
-        if not ok: return False, f'{f.name}: m_resource is not bound to the constructor\'s resource parameter', f.shortloc()
-        c = facts.cls(f.d['classfull'])
-        fld = [x for x in (c or {}).get('fields', []) if x['name'] == 'm_resource']
-        if not fld or not fld[0]['isref']: return False, f'{f.d["classfull"]}::m_resource is not a reference', f.shortloc()
-    return True, f'{len(subs)} subscribe instantiation(s) -> Subscription(m_resource, …) -> make_unique<ConcurrentInvoker>(resource, …) -> m_resource(resource)', site
+                if designates(n, lambda e: e.k == 'ref' and e.decl == p0): ok = True
+        if not ok: return None, f'{f.name}: {lockf[0]["name"]} is not visibly bound to the constructor\'s lock parameter', f.shortloc()
+    return True, f'{len(subs)} subscribe instantiation(s) -> Subscription({lf["name"]}, …) -> ConcurrentInvoker(lock, …) -> its lock member', site
 
 
 def thread_body_deletes(facts, root_name, var):
